@@ -402,9 +402,7 @@ impl<S: Sys> Driver<S> {
                     if settle_after(i) {
                         self.rec.cur.store(i, Ordering::SeqCst);
                     }
-                    let mut frame = BytesMut::new();
-                    n.encode(&mut frame);
-                    self.outbox.push_back(frame);
+                    self.outbox.extend(n.frames());
                     if settle_after(i) {
                         self.settle();
                     } else {
